@@ -379,6 +379,7 @@ def prepare(root: Path, case):
 
 
 def run_restart_case(case, timeout=60):
+    timeout = timeout * load_factor()
     root = Path(tempfile.mkdtemp(prefix="xv-c11-"))
     obs = {"id": case["id"], "error": None}
     procs = []
@@ -607,14 +608,20 @@ def run_restart_case(case, timeout=60):
     return obs
 
 
+def load_factor():
+    """1 … 4: on an overloaded machine (several checks at once) everything — the start of an experiment, its exit — is slower;
+    time-outs that decide "rendezvous not reached" / "hangs" are stretched accordingly (a slow machine is not a hang)"""
+    try:
+        return min(4.0, max(1.0, os.getloadavg()[0] / (os.cpu_count() or 1) / 2))
+    except OSError:
+        return 1.0
+
+
 def wait_or_hang(p, log, t_quiet, t_max):
     """exit status of `p`, or "timeout" once nothing has happened for `t_quiet` seconds (no job process of the case
     alive, task log unchanged) — a slow machine is not a hang"""
     import psutil
-    try:  # on an overloaded machine (several checks at once) everything, the exit of an experiment included, is slower
-        t_quiet = t_quiet * min(4.0, max(1.0, os.getloadavg()[0] / (os.cpu_count() or 1) / 2))
-    except OSError:
-        pass
+    t_quiet = t_quiet * load_factor()
     t0 = time.time()
     last_change = time.time()
     size = -1
